@@ -878,3 +878,58 @@ U_INSR.canaries = [Canary('insulation-radius-and-permittivity-swapped', 'main', 
 U_LAPR.canaries = [Canary('laplace-b-appended-to-the-last-entry', 'main', _LaplaceLastNotNth, [P + '/main[--laplace-load-a/-b reader]/'])]
 U_ANG.canaries = [Canary('angle-start-and-increment-swapped', 'main', _AngleSwap, [P + '/main[--phi/--theta reader]/'])]
 U_NFR.canaries = [Canary('near-field-counts-read-as-floats', 'main', _NfCountsFloat, [P + '/main[--near-field reader]/'])]
+
+
+# ---------------------------------------------------------------- replay: a concrete argument list for a failing reader layout
+GOOD = {'-w': '5,0,0,2,0,0,9,0.001', '-a': '4,1,0,90,0.001', '--helix': '8,2,1,0.001,0.5,0.5', '--excitation-pulse': '2',
+        '--attach-load': '1,2', '--medium': '13,0.005,0', '--taper-wire': '1,1,0.01,3', '--geo-rotate': '1,10,20,30',
+        '--geo-translate': '1,1,2,3', '--geo-scale': '2', '--skin-effect-conductivity': '5e7', '--skin-effect-resistivity': '1e-8',
+        '--insulation-load': '0.003,2.5', '--phi': '0,90,2', '--theta': '0,10,3', '--near-field': '1,2,3,1,1,1,2,1,1',
+        '--rlc-load': '5,1e-6,1e-10', '--trap-load': '1,1e-5,1e-11', '--laplace-load-a': '1,1e-8', '--laplace-load-b': '5,2e-7'}
+LONGER = {'-w': '3,5,0,0,2,0,0,9,0.001', '-a': '3,4,1,0,90,0.001', '--helix': '3,8,2,1,0.001,0.5,0.5', '--excitation-pulse': '2,1',
+          '--attach-load': '1,2,1', '--medium': '13,0.005,0,10', '--geo-rotate': '1,10,20,30,1', '--geo-translate': '1,1,2,3,1',
+          '--geo-scale': '2,1', '--skin-effect-conductivity': '5e7,1', '--skin-effect-resistivity': '1e-8,1',
+          '--insulation-load': '0.003,2.5,1', '--taper-wire': '1,1,0.01,3'}
+
+
+def replay_reader(model, name):
+    """the obligation name carries the option and the field layout: build such an argument list and run the REAL main()"""
+    import json
+    import re
+    from pyvc.runner import native_python
+    m = re.search(r'main\[(--?[a-z-]+)(?:/--[a-z-]+)* reader\]/([^/]+)/', name)
+    if not m:
+        return {'reproduced': False, 'error': 'no layout in the obligation name'}
+    opt, lab = m.group(1), m.group(2)
+    cands = []
+    for good in (GOOD.get(opt), LONGER.get(opt)):
+        if not good:
+            continue
+        f = good.split(',')
+        mm = re.match(r'field-(\d+)-of-(\d+)-is-(text|empty|float)', lab)
+        if mm and int(mm.group(2)) == len(f):
+            f[int(mm.group(1)) - 1] = {'text': 'x', 'empty': '', 'float': '1.5'}[mm.group(3)]
+            cands.append(f)
+        mm = re.match(r'wrong-arity-(\d+)-fields', lab)
+        if mm:
+            cands.append((f + ['1'] * 9)[:int(mm.group(1))])
+        mm = re.match(r'keyword-all-in-field-(\d+)-of-(\d+)', lab)
+        if mm and int(mm.group(2)) == len(f):
+            f[int(mm.group(1)) - 1] = 'all'
+            cands.append(f)
+        mm = re.match(r'keyword-all-in-every-field-of-(\d+)', lab)
+        if mm and int(mm.group(1)) == len(f):
+            cands.append(['all'] * len(f))
+        mm = re.match(r'well-formed-(\d+)-fields', lab)
+        if mm and int(mm.group(1)) == len(f):
+            cands.append(f)
+    base = ['-f', '7.1', '-w', '1,5,0,0,2,0,0,9,0.001', '--excitation-pulse=2', '--load=5+3j']
+    for f in cands:
+        args = [a for a in base if not a.startswith(opt)] + ['%s=%s' % (opt, ','.join(f))]
+        r = native_python('c20_failsafe.py', ['replay', json.dumps({'args': args})])
+        if r['violations']:
+            return {'reproduced': True, 'input': {'args': args}, 'observed': r['violations'][:1]}
+    return {'reproduced': False, 'tried': [','.join(f) for f in cands][:4]}
+
+
+REPLAY = {'C20/main[': replay_reader}
